@@ -1,11 +1,29 @@
 /-
   Property C05 — SM4: all block paths compute the GB/T 32907 permutation and its inverse.
-  (Property theorems only; lemmas live in SMGo/Proofs.)
+  (Property theorems only; lemmas live in SMGo/Proofs/SM4*.lean.)
+
+  This file covers the portable code of /repo/sm4/sm4.go (`cryptoBlock`, `cryptoBlockX2`, `ss`, `ssX2`,
+  `tau`, `transTPrime`, `expandKey`, `NewCipher`'s length test) through its executable model
+  `SMGo.Model.SM4` instantiated with the tables regenerated from sm4_const.go (`genTables`).
+  The correspondence model ↔ Go code is tested by the differential harness (bin/check C05), which also
+  covers the accelerated kernels; those are not modelled here.  The table facts of property C18
+  (S-box = algebraic S-box, T-tables = L ∘ S-box, CK/FK formulas) are restated below; they are
+  kernel-checked against the generated file in SMGo/Proofs/SM4Tables.lean.
 -/
 import SMGo.Spec.SM4
 import SMGo.Model.SM4Inst
+import SMGo.Proofs.SM4Tables
+import SMGo.Proofs.SM4Block
+import SMGo.Proofs.SM4X2
+import SMGo.Proofs.SM4Key
+import SMGo.Proofs.SM4Inverse
 namespace SMGo.Props.C05
 open SMGo
+
+/-- the model instantiated with the tables generated from sm4_const.go -/
+abbrev tb : Model.SM4.Tables := Model.SM4.genTables
+
+/-! ### the specification itself -/
 
 /-- specification self-test (a test, labelled as such): the worked example of GB/T 32907, A.1 -/
 theorem spec_vector_A1 :
@@ -14,4 +32,182 @@ theorem spec_vector_A1 :
       = [0x68,0x1e,0xdf,0x34,0xd2,0x06,0x96,0x5e,0x86,0xb3,0xe9,0x4f,0x53,0x6e,0x42,0x46] := by
   decide +kernel
 
+/-- the output of the block function is one block -/
+theorem crypt_length (rk : List W32) (b : Bytes) : (Spec.SM4.crypt rk b).length = 16 :=
+  Proofs.SM4.crypt_length rk b
+
+/-- decryption (the same rounds with the round keys reversed) inverts encryption on every block -/
+theorem decrypt_encrypt (key blk : Bytes) (_hk : key.length = 16) (hb : blk.length = 16) :
+    Spec.SM4.decrypt key (Spec.SM4.encrypt key blk) = blk :=
+  Proofs.SM4.crypt_reverse_crypt (Spec.SM4.keySchedule key) blk hb
+
+/-- encryption inverts decryption on every block -/
+theorem encrypt_decrypt (key blk : Bytes) (_hk : key.length = 16) (hb : blk.length = 16) :
+    Spec.SM4.encrypt key (Spec.SM4.decrypt key blk) = blk := by
+  have h := Proofs.SM4.crypt_reverse_crypt (Spec.SM4.keySchedule key).reverse blk hb
+  rwa [List.reverse_reverse] at h
+
+/-! ### C18 (SM4 part): the generated tables -/
+
+/-- the S-box table of sm4_const.go is the algebraic S-box (affine ∘ inversion in GF(2^8) ∘ affine) -/
+theorem sbox_alg : Gen.SM4Const.sbox = (List.range 256).map Spec.SM4.sboxAlg :=
+  Proofs.SM4.sbox_alg
+
+/-- the S-box is a permutation of the byte values -/
+theorem sbox_bijective :
+    (∀ x, x < 256 → Spec.SM4.sboxAlg x < 256)
+    ∧ (∀ x y, x < 256 → y < 256 → Spec.SM4.sboxAlg x = Spec.SM4.sboxAlg y → x = y)
+    ∧ (∀ y, y < 256 → ∃ x, x < 256 ∧ Spec.SM4.sboxAlg x = y) :=
+  ⟨Proofs.SM4.sboxAlg_lt, Proofs.SM4.sboxAlg_injective, Proofs.SM4.sboxAlg_surjective⟩
+
+/-- the four T-tables are the images of the S-box under L, the S-box output placed in byte 0, 1, 2, 3 -/
+theorem ttables :
+    Gen.SM4Const.s0 = (List.range 256).map (fun x => (Spec.SM4.L (BitVec.ofNat 32 (Spec.SM4.sboxAlg x) <<< 24)).toNat)
+    ∧ Gen.SM4Const.s1 = (List.range 256).map (fun x => (Spec.SM4.L (BitVec.ofNat 32 (Spec.SM4.sboxAlg x) <<< 16)).toNat)
+    ∧ Gen.SM4Const.s2 = (List.range 256).map (fun x => (Spec.SM4.L (BitVec.ofNat 32 (Spec.SM4.sboxAlg x) <<< 8)).toNat)
+    ∧ Gen.SM4Const.s3 = (List.range 256).map (fun x => (Spec.SM4.L (BitVec.ofNat 32 (Spec.SM4.sboxAlg x) <<< 0)).toNat) :=
+  ⟨Proofs.SM4.ttable_0, Proofs.SM4.ttable_1, Proofs.SM4.ttable_2, Proofs.SM4.ttable_3⟩
+
+/-- the key-schedule constants follow their formulas: ck_{i,j} = (4i+j)·7 mod 256, FK of the standard -/
+theorem ck_fk :
+    Gen.SM4Const.ck = (List.range 32).map (fun i => (Spec.SM4.CK i).toNat)
+    ∧ [Gen.SM4Const.fk0, Gen.SM4Const.fk1, Gen.SM4Const.fk2, Gen.SM4Const.fk3] = Spec.SM4.FK.map BitVec.toNat :=
+  ⟨Proofs.SM4.ck_formula, Proofs.SM4.fk_eq⟩
+
+/-! ### the round function of the code -/
+
+/-- L is linear (used to split T over the four T-tables) -/
+theorem L_xor (a b : W32) : Spec.SM4.L (a ^^^ b) = Spec.SM4.L a ^^^ Spec.SM4.L b :=
+  Proofs.SM4.L_xor a b
+
+/-- `ss`: the four T-table look-ups compute T = L ∘ τ -/
+theorem ss_eq_T (t : W32) : Model.SM4.ss tb t = Spec.SM4.T t :=
+  Proofs.SM4.ss_eq_T t
+
+/-- `transTPrime`: S-box look-ups and two rotations (written `x<<k | x>>(32-k)`) compute T' -/
+theorem transTPrime_eq (a : W32) : Model.SM4.transTPrime tb a = Spec.SM4.T' a :=
+  Proofs.SM4.transTPrime_eq a
+
+/-! ### key schedule and constructor -/
+
+/-- `expandKey` yields the round keys rk_0..rk_31 of the standard, and the same in reverse for decryption -/
+theorem expandKey_eq_spec (key : Bytes) (_hk : key.length = 16) :
+    Model.SM4.expandKey tb key = (Spec.SM4.keySchedule key, (Spec.SM4.keySchedule key).reverse) :=
+  Proofs.SM4.expandKey_eq key
+
+/-- `NewCipher` rejects every key that is not 16 bytes long -/
+theorem newCipher_rejects (key : Bytes) (hk : key.length ≠ 16) : Model.SM4.newCipher tb key = .err := by
+  simp [Model.SM4.newCipher, hk]
+
+/-- `NewCipher` accepts a 16-byte key and holds the round keys of the standard -/
+theorem newCipher_accepts (key : Bytes) (hk : key.length = 16) :
+    Model.SM4.newCipher tb key = .ok (Spec.SM4.keySchedule key, (Spec.SM4.keySchedule key).reverse) := by
+  simp [Model.SM4.newCipher, hk, Proofs.SM4.expandKey_eq]
+
+/-! ### one block, two blocks -/
+
+/-- `cryptoBlock` (8 groups of 4 in-place updates) is the 32 rounds and the reversal R of the standard -/
+theorem cryptoBlock_eq_spec (rk : List W32) (x : Bytes) (hrk : rk.length = 32) (_hx : x.length = 16) :
+    Model.SM4.cryptoBlock tb rk x = Spec.SM4.crypt rk x :=
+  Proofs.SM4.cryptoBlock_eq rk x hrk
+
+/-- `cryptoBlockX2` (two blocks in the 32-bit halves of 64-bit variables) is `cryptoBlock` on each block -/
+theorem cryptoBlockX2_eq (rk : List W32) (x : Bytes) (_hrk : rk.length = 32) (hx : x.length = 32) :
+    Model.SM4.cryptoBlockX2 tb rk x
+      = Model.SM4.cryptoBlock tb rk (x.take 16) ++ Model.SM4.cryptoBlock tb rk (x.drop 16) :=
+  Proofs.SM4.cryptoBlockX2_split tb rk x hx
+
+/-- the two-block path against the specification -/
+theorem cryptoBlockX2_eq_spec (rk : List W32) (x : Bytes) (hrk : rk.length = 32) (hx : x.length = 32) :
+    Model.SM4.cryptoBlockX2 tb rk x = Spec.SM4.crypt rk (x.take 16) ++ Spec.SM4.crypt rk (x.drop 16) := by
+  rw [cryptoBlockX2_eq rk x hrk hx, Proofs.SM4.cryptoBlock_eq _ _ hrk, Proofs.SM4.cryptoBlock_eq _ _ hrk]
+
+/-! ### composition -/
+
+/-- C05 for the portable path: with the round keys `expandKey` produces from a 16-byte key, `cryptoBlock`
+    computes SM4 encryption and decryption of every block, and decryption inverts encryption.
+    (The model returns the output block as a value: source and destination being the same buffer
+    cannot make a difference to a code path that reads `x` completely before writing `y`, which is what
+    `cryptoBlock` does; the in-place case is exercised on the Go code by the harness.) -/
+theorem C05_portable (key blk : Bytes) (hk : key.length = 16) (hb : blk.length = 16) :
+    Model.SM4.cryptoBlock tb (Model.SM4.expandKey tb key).1 blk = Spec.SM4.encrypt key blk
+    ∧ Model.SM4.cryptoBlock tb (Model.SM4.expandKey tb key).2 blk = Spec.SM4.decrypt key blk
+    ∧ Model.SM4.cryptoBlock tb (Model.SM4.expandKey tb key).2
+        (Model.SM4.cryptoBlock tb (Model.SM4.expandKey tb key).1 blk) = blk := by
+  have hlen : (Spec.SM4.keySchedule key).length = 32 := Proofs.SM4.keySchedule_length key
+  have hlen' : (Spec.SM4.keySchedule key).reverse.length = 32 := by rw [List.length_reverse, hlen]
+  rw [expandKey_eq_spec key hk]
+  simp only [Proofs.SM4.cryptoBlock_eq _ _ hlen, Proofs.SM4.cryptoBlock_eq _ _ hlen']
+  exact ⟨rfl, rfl, decrypt_encrypt key blk hk hb⟩
+
+/-- C05 for the portable two-block path -/
+theorem C05_portable_X2 (key x : Bytes) (hk : key.length = 16) (hx : x.length = 32) :
+    Model.SM4.cryptoBlockX2 tb (Model.SM4.expandKey tb key).1 x
+      = Spec.SM4.encrypt key (x.take 16) ++ Spec.SM4.encrypt key (x.drop 16)
+    ∧ Model.SM4.cryptoBlockX2 tb (Model.SM4.expandKey tb key).2 x
+      = Spec.SM4.decrypt key (x.take 16) ++ Spec.SM4.decrypt key (x.drop 16) := by
+  have hlen : (Spec.SM4.keySchedule key).length = 32 := Proofs.SM4.keySchedule_length key
+  have hlen' : (Spec.SM4.keySchedule key).reverse.length = 32 := by rw [List.length_reverse, hlen]
+  rw [expandKey_eq_spec key hk]
+  simp only [Spec.SM4.encrypt, Spec.SM4.decrypt]
+  exact ⟨cryptoBlockX2_eq_spec (Spec.SM4.keySchedule key) x hlen hx,
+    cryptoBlockX2_eq_spec (Spec.SM4.keySchedule key).reverse x hlen' hx⟩
+
+/-! ### the hypotheses are satisfiable (concrete, non-trivial instances) -/
+
+local notation "exKey" =>
+  ([0x01,0x23,0x45,0x67,0x89,0xab,0xcd,0xef,0xfe,0xdc,0xba,0x98,0x76,0x54,0x32,0x10] : Bytes)
+local notation "exBlk" =>
+  ([0x00,0x11,0x22,0x33,0x44,0x55,0x66,0x77,0x88,0x99,0xaa,0xbb,0xcc,0xdd,0xee,0xff] : Bytes)
+
+example : (exKey).length = 16 ∧ (exBlk).length = 16 ∧ (exBlk ++ exKey).length = 32 := by decide
+example : (Spec.SM4.crypt (Spec.SM4.keySchedule exKey) exBlk).length = 16 := crypt_length _ _
+example : Spec.SM4.decrypt exKey (Spec.SM4.encrypt exKey exBlk) = exBlk := decrypt_encrypt exKey exBlk (by decide) (by decide)
+example : Spec.SM4.encrypt exKey (Spec.SM4.decrypt exKey exBlk) = exBlk := encrypt_decrypt exKey exBlk (by decide) (by decide)
+example : Spec.SM4.encrypt exKey exBlk ≠ exBlk := by decide +kernel
+example : Model.SM4.ss tb 0x12345678#32 = Spec.SM4.T 0x12345678#32 := ss_eq_T _
+example : Spec.SM4.T 0x12345678#32 ≠ 0x12345678#32 := by decide +kernel
+example : Model.SM4.transTPrime tb 0x12345678#32 = Spec.SM4.T' 0x12345678#32 := transTPrime_eq _
+example : Model.SM4.expandKey tb exKey = (Spec.SM4.keySchedule exKey, (Spec.SM4.keySchedule exKey).reverse) :=
+  expandKey_eq_spec exKey (by decide)
+example : (Spec.SM4.keySchedule exKey).length = 32 ∧ (Spec.SM4.keySchedule exKey).getD 0 0 = 0xf12186f9#32 := by
+  decide +kernel
+example : Model.SM4.newCipher tb (exKey ++ [0x00]) = .err := newCipher_rejects _ (by decide)
+example : Model.SM4.newCipher tb [] = .err := newCipher_rejects _ (by decide)
+example : ∃ r, Model.SM4.newCipher tb exKey = .ok r := ⟨_, newCipher_accepts exKey (by decide)⟩
+example : Model.SM4.cryptoBlock tb (Spec.SM4.keySchedule exKey) exBlk = Spec.SM4.crypt (Spec.SM4.keySchedule exKey) exBlk :=
+  cryptoBlock_eq_spec _ _ (Proofs.SM4.keySchedule_length exKey) (by decide)
+example : Model.SM4.cryptoBlockX2 tb (Spec.SM4.keySchedule exKey) (exBlk ++ exKey)
+    = Model.SM4.cryptoBlock tb (Spec.SM4.keySchedule exKey) exBlk ++ Model.SM4.cryptoBlock tb (Spec.SM4.keySchedule exKey) exKey :=
+  cryptoBlockX2_eq _ (exBlk ++ exKey) (Proofs.SM4.keySchedule_length exKey) (by decide)
+example : Model.SM4.cryptoBlock tb (Model.SM4.expandKey tb exKey).1 exKey
+    = [0x68,0x1e,0xdf,0x34,0xd2,0x06,0x96,0x5e,0x86,0xb3,0xe9,0x4f,0x53,0x6e,0x42,0x46] := by
+  rw [(C05_portable exKey exKey (by decide) (by decide)).1]; exact spec_vector_A1
+example : Model.SM4.cryptoBlockX2 tb (Model.SM4.expandKey tb exKey).1 (exBlk ++ exKey)
+    = Spec.SM4.encrypt exKey exBlk ++ Spec.SM4.encrypt exKey exKey :=
+  (C05_portable_X2 exKey (exBlk ++ exKey) (by decide) (by decide)).1
+example : Model.SM4.cryptoBlockX2 tb (Spec.SM4.keySchedule exKey).reverse (exBlk ++ exKey)
+    = Spec.SM4.crypt (Spec.SM4.keySchedule exKey).reverse exBlk ++ Spec.SM4.crypt (Spec.SM4.keySchedule exKey).reverse exKey :=
+  cryptoBlockX2_eq_spec _ (exBlk ++ exKey) (by rw [List.length_reverse]; exact Proofs.SM4.keySchedule_length _) (by decide)
+
 end SMGo.Props.C05
+
+#print axioms SMGo.Props.C05.spec_vector_A1
+#print axioms SMGo.Props.C05.crypt_length
+#print axioms SMGo.Props.C05.decrypt_encrypt
+#print axioms SMGo.Props.C05.encrypt_decrypt
+#print axioms SMGo.Props.C05.sbox_alg
+#print axioms SMGo.Props.C05.sbox_bijective
+#print axioms SMGo.Props.C05.ttables
+#print axioms SMGo.Props.C05.ck_fk
+#print axioms SMGo.Props.C05.L_xor
+#print axioms SMGo.Props.C05.ss_eq_T
+#print axioms SMGo.Props.C05.transTPrime_eq
+#print axioms SMGo.Props.C05.expandKey_eq_spec
+#print axioms SMGo.Props.C05.newCipher_rejects
+#print axioms SMGo.Props.C05.newCipher_accepts
+#print axioms SMGo.Props.C05.cryptoBlock_eq_spec
+#print axioms SMGo.Props.C05.cryptoBlockX2_eq
+#print axioms SMGo.Props.C05.cryptoBlockX2_eq_spec
+#print axioms SMGo.Props.C05.C05_portable
+#print axioms SMGo.Props.C05.C05_portable_X2
